@@ -1081,8 +1081,19 @@ def straight_generators(trees: Dict[str, ast.Module]) -> None:
 
 
 def splice_starred_displays(tree: ast.Module) -> None:
-    """(a, *(b, c), d) -> (a, b, c, d)   and   f(a, *(b, c)) -> f(a, b, c): a starred display inside a display / argument list is its elements."""
+    """(a, *(b, c), d) -> (a, b, c, d)   and   f(a, *(b, c)) -> f(a, b, c): a starred display inside a display / argument list is its elements.
+    Tuple concatenation is the display: (a, b) + (c,) -> (a, b, c);  (a,) + tuple(E) -> (a, *E)."""
     class T(ast.NodeTransformer):
+        def visit_BinOp(self, n: ast.BinOp):
+            self.generic_visit(n)
+            if isinstance(n.op, ast.Add) and isinstance(n.left, ast.Tuple) and isinstance(n.left.ctx, ast.Load):
+                r = n.right
+                if isinstance(r, ast.Tuple):
+                    return ast.copy_location(ast.Tuple(elts=list(n.left.elts) + list(r.elts), ctx=ast.Load()), n)
+                if isinstance(r, ast.Call) and isinstance(r.func, ast.Name) and r.func.id == "tuple" and len(r.args) == 1 and not r.keywords:
+                    return ast.copy_location(ast.Tuple(elts=list(n.left.elts) + [ast.Starred(value=r.args[0], ctx=ast.Load())], ctx=ast.Load()), n)
+            return n
+
         def _splice(self, elts: List[ast.expr]) -> List[ast.expr]:
             out: List[ast.expr] = []
             for e in elts:
@@ -1973,7 +1984,12 @@ def inline_single_use_genexps(tree: ast.Module) -> None:
                         # the use must be in one of the following statements of this block, everything in between being a generator binding
                         j = i + 1
                         while j < len(body) and not any(n is loads[0] for n in ast.walk(body[j])):
-                            if not (isinstance(body[j], ast.Assign) and isinstance(body[j].value, ast.GeneratorExp)):
+                            bj = body[j]
+                            vj = bj.value if isinstance(bj, (ast.Assign, ast.AnnAssign)) else None
+                            tj = (bj.targets[0] if isinstance(bj, ast.Assign) and len(bj.targets) == 1 else getattr(bj, "target", None))
+                            # other lazy bindings, or a fresh empty container / constant bound to a plain local: nothing the pipeline can observe
+                            if not (isinstance(tj, ast.Name) and (isinstance(vj, ast.GeneratorExp) or isinstance(vj, ast.Constant)
+                                                                  or (isinstance(vj, (ast.List, ast.Tuple, ast.Dict, ast.Set)) and not (vj.keys if isinstance(vj, ast.Dict) else vj.elts)))):
                                 break
                             j += 1
                         if j >= len(body) or not any(n is loads[0] for n in ast.walk(body[j])):
